@@ -2,11 +2,13 @@
    a theorem cannot be weakened in its own file without this file failing to compile. *)
 From BT Require Import Base.Util.
 From BT Require Base.LE Base.Float Generated.Consts Model.RTree Model.BBIFile Model.BigWigWrite Model.BBIRead Model.SinkTrace
-  Proofs.SinkBytes Proofs.SinkExec Proofs.SinkPhases Properties.C14.
+  Proofs.BigWigFileRoundTrip Proofs.RTreeCodec Proofs.BigWigQuery
+  Proofs.SinkBytes Proofs.SinkExec Proofs.SinkPhases Proofs.SinkServe Properties.C14.
 
 Module PinC14.
 Import Base.LE Base.Float Generated.Consts Model.RTree Model.BBIFile Model.BigWigWrite Model.BBIRead Model.SinkTrace
-  Proofs.SinkBytes Proofs.SinkExec Proofs.SinkPhases Properties.C14.
+  Proofs.BigWigFileRoundTrip Proofs.RTreeCodec Proofs.BigWigQuery
+  Proofs.SinkBytes Proofs.SinkExec Proofs.SinkPhases Proofs.SinkServe Properties.C14.
 Local Open Scope N_scope.
 
 (* the notions the statements use, pinned too *)
@@ -17,6 +19,12 @@ Check (eq_refl : complete_state = fun p X =>
   /\ forall i, (i < length (body p))%nat -> ~ (304 <= i < 352)%nat -> nth i X 0 = nth i (final_bytes p) 0).
 Check (eq_refl : cut_ops = fun ops n c =>
   firstn n ops ++ match nth_error ops n with Some (SWrite p b) => [SWrite p (firstn c b)] | _ => [] end).
+
+Check (eq_refl : serves = fun sizes inp F X =>
+  exists i, read_info F = Ok i /\ read_info X = Ok i
+    /\ forall infl c vs s e, In (c, vs) (runs inp) ->
+         bw_interval infl X i c s e = Ok (clip_filter s e vs)
+         /\ bw_interval infl F i c s e = Ok (clip_filter s e vs)).
 
 Check (C14_header_operation : forall ck fp kind o sizes input p,
   chunker_ok ck -> bw_parts fp kind o sizes input = Ok p ->
@@ -50,6 +58,15 @@ Check (C14_refused_input : forall ck fp kind o sizes input n c,
 Check (C14_fault : forall ck fp kind o sizes input kd k,
   (k < count_kind kd (snd (bw_sink_run None ck fp kind o sizes input)))%nat ->
   fst (bw_sink_run (Some (kd, k)) ck fp kind o sizes input) <> Ok tt).
+Check (C14_prefix_serves : forall ck fp kind o sizes input p n c,
+  chunker_ok ck -> bw_parts fp kind o sizes input = Ok p -> kind = 0 \/ kind = 1 ->
+  opts_ok o -> input_ok sizes input -> Nlen (final_bytes p) < U64 ->
+  (header_index ck kind p < n)%nat ->
+  let T := snd (bw_sink_run None ck fp kind o sizes input) in
+  serves sizes input (replay T) (replay (cut_ops T n c))).
+Check (C14_fault_state : forall f ck fp kind o sizes input,
+  exists n, snd (bw_sink_run f ck fp kind o sizes input)
+            = firstn n (snd (bw_sink_run None ck fp kind o sizes input))).
 Check (C14_last_flush_refuted :
   count_kind 1 (snd (sink_run None ck_whole false false ieee 0 ex_o ex_sizes ex_input)) = 14%nat
   /\ fst (sink_run (Some (1, 13%nat)) ck_whole false false ieee 0 ex_o ex_sizes ex_input) = Ok tt
